@@ -411,7 +411,7 @@ def index(R, v, idx):
         i = R.z(idx, 'int')
         n = z3.Length(e)
         if R.total_access:
-            return R.wrap(e[norm_index(R, n, i)], k)
+            return R.wrap(e[z3.simplify(norm_index(R, n, i))], k)
         if not R.choose(z3.And(i >= -n, i < n)):
             raise PyRaise('IndexError')
         j = z3.simplify(norm_index(R, n, i))
@@ -440,6 +440,16 @@ def slice_(R, v, lo, hi):
         raise OutOfReach('slice of %r' % (v,))
     e, k = sq
     n = z3.Length(e)
+    clo = lo is None or (isinstance(lo, int) and not isinstance(lo, bool) and lo >= 0)
+    chi = hi is None or (isinstance(hi, int) and not isinstance(hi, bool) and hi >= 0)
+    if clo and chi:
+        # concrete non-negative bounds: seq.extract already truncates like Python does
+        a = lo or 0
+        if hi is None:
+            return ZV(z3.SubSeq(e, z3.IntVal(a), n - a) if a else e, ('seq', k))
+        if hi <= a:
+            return ZV(z3.Empty(z3.SeqSort(R.S.sort_of(k))), ('seq', k))
+        return ZV(z3.SubSeq(e, z3.IntVal(a), z3.IntVal(hi - a)), ('seq', k))
     l, h = py_slice_bounds(n, None if lo is None else R.z(lo, 'int'), None if hi is None else R.z(hi, 'int'))
     ln = z3.If(h - l < 0, z3.IntVal(0), h - l)
     return ZV(z3.simplify(z3.SubSeq(e, l, ln)), ('seq', k))
@@ -920,6 +930,8 @@ def _b_reversed(R, a, k):
     items = R.concrete_items(a[0])
     if items is not None:
         return TupleV(list(reversed(items)))
+    if is_seq(a[0]) and isinstance(a[0].kind[1], str) and ('rev_' + a[0].kind[1]) in R.w.specs:
+        return R.call_spec(R.w.specs['rev_' + a[0].kind[1]], [a[0]])
     return RevV(a[0])
 
 
@@ -1065,6 +1077,50 @@ def _b_ite(R, a, k):
     return R.wrap(z3.If(c, R.z(a[1], kk), R.z(a[2], kk)), kk)
 
 
+def _setval(R, x, ek='Term'):
+    if is_set(x):
+        return x
+    if isinstance(x, EmptySetV):
+        return ZV(z3.EmptySet(R.S.sort_of(ek)), ('set', ek))
+    items = R.concrete_items(x)
+    if items is not None:
+        if items:
+            ek = R.kind_of(items[0])
+        return ZV(R.z(TupleV(items), ('set', ek)), ('set', ek))
+    raise OutOfReach('as_set(%r)' % (x,))
+
+
+def _b_as_set(R, a, k):
+    return _setval(R, a[0], a[1] if len(a) > 1 else 'Term')
+
+
+def _b_set_remove(R, a, k):
+    s = _setval(R, a[0])
+    return ZV(z3.SetDel(s.e, R.z(a[1], s.kind[1])), s.kind)
+
+
+def _b_set_union(R, a, k):
+    s = _setval(R, a[0])
+    t = _setval(R, a[1], s.kind[1])
+    return ZV(z3.SetUnion(s.e, t.e), s.kind)
+
+
+def _b_subset(R, a, k):
+    s = _setval(R, a[0])
+    t = _setval(R, a[1], s.kind[1])
+    return ZV(z3.IsSubset(s.e, t.e), 'bool')
+
+
+def _b_member(R, a, k):
+    s = _setval(R, a[1], R.kind_of(a[0]))
+    return ZV(z3.IsMember(R.z(a[0], s.kind[1]), s.e), 'bool')
+
+
+def _b_empty_set(R, a, k):
+    ek = a[0] if a else 'Term'
+    return ZV(z3.EmptySet(R.S.sort_of(ek)), ('set', ek))
+
+
 def mk(name, fn):
     return BuiltinV(name, fn)
 
@@ -1083,6 +1139,9 @@ BUILTINS = {
     'requires': mk('requires', _b_requires), 'ensures': mk('ensures', _b_ensures),
     'decreases': mk('decreases', _b_decreases), 'implies': mk('implies', _b_implies),
     'iff': mk('iff', _b_iff), 'ite': mk('ite', _b_ite),
+    'as_set': mk('as_set', _b_as_set), 'set_remove': mk('set_remove', _b_set_remove),
+    'set_union': mk('set_union', _b_set_union), 'subset': mk('subset', _b_subset),
+    'member': mk('member', _b_member), 'empty_set': mk('empty_set', _b_empty_set),
 }
 
 EXTERNALS = {
